@@ -246,10 +246,10 @@ func c33genNames(rng *verifkit.Rand, max int) []c33name {
 // ---- recorded history ------------------------------------------------------
 
 type c33rec struct {
-	Client int     `json:"g"`
-	Call   int64   `json:"call"`
-	Ret    int64   `json:"ret"`
-	Op     string  `json:"op"`
+	Client int    `json:"g"`
+	Call   int64  `json:"call"`
+	Ret    int64  `json:"ret"`
+	Op     string `json:"op"`
 	in     c33in
 	out    c33out
 }
